@@ -273,14 +273,19 @@ def witness_created_parent_is_empty(prog, fn: ast.AST) -> bool:
     if len(defs) != 1:
         return False
     eb = defs[0].targets[0].id
-    from sa.util import Aliases
+    from sa.util import Aliases, FlowAliases
     al = Aliases(fn)
+    fa = FlowAliases(fn, cfg)
+
+    def names_ref(n, a):  # `a` names `<binding>.value`, through single-definition locals or the one definition reaching here
+        return al.norm(a) == f"{eb}.value" or fa.norm_at(n, a) == f"{eb}.value"
+
     calls = [n for n in cfg.nodes if n.ast is not None and n.kind in ("stmt", "test") and any(
-        isinstance(c, ast.Call) and callee(c) == "_assign_through_identifier" and any(al.norm(a) == f"{eb}.value" for a in c.args)
+        isinstance(c, ast.Call) and callee(c) == "_assign_through_identifier" and any(names_ref(n, a) for a in c.args)
         for c in ast.walk(n.ast))]  # closure `f(ref)` or module-level `f(owner, ref, value)`
     # … or the attempt written in place: `<ref>.value = <value>` where <ref> names `<binding>.value`
     calls += [n for n in cfg.nodes if isinstance(n.ast, ast.Assign) and isinstance(n.ast.targets[0], ast.Attribute)
-              and n.ast.targets[0].attr == "value" and al.norm(n.ast.targets[0].value) == f"{eb}.value"]
+              and n.ast.targets[0].attr == "value" and names_ref(n, n.ast.targets[0].value)]
     if not calls:
         return False
 
